@@ -108,8 +108,9 @@ def C19(sc, tier, replay, t0):
         binary = build_c19(sc, gen)
         if replay:
             return replay_run(binary, gen, replay, env=C19_MAPROT)
+        part = os.environ.get("VERIF_C19_PART")  # development aid: run one part (A, B, C, T) only
         reports += D.run_shards(binary, gen, tier, max(1, D.NCPU // len(gens)), os.path.join(sc.dir, "out"), env=C19_MAPROT,
-                                deadline=(3000 if tier == "thorough" else 600))
+                                extra_args=(["-part", part] if part else []), deadline=(3000 if tier == "thorough" else 600))
     merged = D.merge_reports(reports)
     return D.finish("C19", tier, "model_checking", merged, t0,
         rule="explicit enumeration of every ZooKeeper event history up to the stated length over 3 znodes, each replayed on a fresh snapshot chain through the real handleUriUpdate (function level) and through the real waitForUriUpdates/waitForServiceUpdates loops + ResolveHostnameAndContextForQuery (client level), compared with a reference fold after every event, with every earlier snapshot re-compared to the copy taken when it was handed out; selection: every announcement set x priority list x scripted RNG answer on a grid; treecache: explicit-state exploration of (fake ZooKeeper, TreeCache) over every sequence of ZooKeeper writes up to the stated depth (create / set / delete of root, children, grandchild; session lost), every order in which the watch events they trigger reach the cache, both fates of events of nodes already told to stop, one connection error at any of the next 4 connection calls and the retry timer firing before or after later writes - the three blocks of TreeCache.loop and everything below them run on the real code without goroutines or timers (rig derived textually from the current treecache.go) and the fold of the emitted TreeCacheEvents must equal ZooKeeper's content at every quiescent point; states = distinct fold contents / announcement sets / explorer nodes, transitions = handler, chooseHost or rig calls; a class is (family, history length | selection outcome kind | execution shape)",
